@@ -1,1 +1,545 @@
 // Kani contract harnesses for /repo/arrow-buffer/src/buffer/null.rs (child module: sees private items via super::)
+use super::*;
+#[path = "/verif/kani/support/spec.rs"]
+mod spec;
+#[allow(unused_imports)]
+use spec::*;
+
+// ---------------------------------------------------------------------------------------------
+// Shared harness helpers (spec side). Nothing here calls the code under test.
+// ---------------------------------------------------------------------------------------------
+
+/// N <= 64 fully symbolic bytes built without a loop (lets a harness use a small unwind bound).
+#[allow(dead_code)]
+fn any_bytes<const N: usize>() -> [u8; N] {
+    let w: (u128, u128, u128, u128) = (kani::any(), kani::any(), kani::any(), kani::any());
+    let full: [u8; 64] = unsafe { std::mem::transmute(w) };
+    let mut out = [0u8; N];
+    out.copy_from_slice(&full[..N]);
+    out
+}
+#[allow(dead_code)]
+fn mask(b: bool) -> u64 { if b { u64::MAX } else { 0 } }
+
+// STUB (listed): `core::ptr::align_offset`, the single address-dependent step of
+// `<[u8]>::align_to::<u64>()`. CBMC cannot constant-fold an address during symbolic execution, so
+// without it every slice length after `align_to` is symbolic (measured: out of memory / > 5 min).
+// The stub returns the exact value of the real function for a pointer whose address is congruent
+// to the harness-supplied skew modulo 8, and it *asserts* that congruence on the real address, so
+// nothing is assumed about the allocator; the rest of the real `align_to` runs unchanged.
+// The k-th call uses ALIGN_SKEWS[k] (control flow is concrete, so k is concrete).
+#[allow(dead_code)]
+static mut ALIGN_SKEWS: [usize; 6] = [0; 6];
+#[allow(dead_code)]
+static mut ALIGN_CALLS: usize = 0;
+#[allow(dead_code)]
+fn set_skews(s: [usize; 6]) { unsafe { ALIGN_SKEWS = s; ALIGN_CALLS = 0; } }
+/// builder for the list of expected `align_to` calls of one harness (bookkeeping only: a wrong
+/// prediction makes the stub's address assertion fail, it can never hide a violation)
+#[derive(Clone, Copy)]
+#[allow(dead_code)]
+struct Skews { s: [usize; 6], n: usize }
+#[allow(dead_code)]
+fn skews() -> Skews { Skews { s: [0; 6], n: 0 } }
+#[allow(dead_code)]
+impl Skews {
+    /// one `align_to` call on a slice that starts `sk` bytes past an 8-byte aligned address
+    fn raw(mut self, sk: usize) -> Self { self.s[self.n] = sk % 8; self.n += 1; self }
+    /// the `align_to` call of `UnalignedBitChunk::new(bytes, off, len)` (made only when the addressed
+    /// byte range is longer than 16 bytes), `bytes` starting `sk` bytes past an 8-byte aligned address
+    fn ubc(self, sk: usize, off: usize, len: usize) -> Self {
+        if len > 0 && (len + off % 8 + 7) / 8 > 16 { self.raw(sk + off / 8) } else { self }
+    }
+    fn install(self) { unsafe { ALIGN_SKEWS = self.s; ALIGN_CALLS = 0; } }
+}
+#[allow(dead_code)]
+unsafe fn stub_align_offset<T>(p: *const T, a: usize) -> usize {
+    assert!(std::mem::size_of::<T>() == 1 && a == 8);
+    let k = unsafe { ALIGN_CALLS };
+    assert!(k < 6);
+    unsafe { ALIGN_CALLS = k + 1 };
+    let skew = unsafe { ALIGN_SKEWS[k] } % a;
+    assert!((p as usize) % a == skew);
+    (a - skew) % a
+}
+macro_rules! inst {
+    ($name:ident, $unwind:expr, $call:expr) => {
+        #[kani::proof]
+        #[kani::unwind($unwind)]
+        #[kani::stub(core::ptr::align_offset, stub_align_offset)]
+        fn $name() { $call }
+    };
+}
+
+fn mk(a: &[u8], sk: usize) -> Buffer { Buffer::from_slice_ref(a).slice(sk) }
+
+/// number of true values among model bits [off, off+len) of `a` (naive loop)
+fn popcount(a: &[u8], off: usize, len: usize) -> usize {
+    let mut c = 0usize;
+    let mut i = 0;
+    while i < len {
+        if bit(a, off + i) { c += 1; }
+        i += 1;
+    }
+    c
+}
+
+fn new_grid<const OFF: usize, const LEN: usize, const N: usize, const SK: usize, const VIA_FROM: bool>() {
+    let a: [u8; N] = any_bytes();
+    let bb = BooleanBuffer::new(mk(&a, SK), OFF, LEN);
+    set_skews([(SK + OFF / 8) % 8; 6]);
+    let n = if VIA_FROM { NullBuffer::from(bb) } else { NullBuffer::new(bb) };
+    let valid = popcount(&a, 8 * SK + OFF, LEN);
+    assert!(n.len() == LEN && n.offset() == OFF && n.is_empty() == (LEN == 0));
+    assert!(n.null_count() == LEN - valid);
+    if LEN > 0 {
+        let i: usize = kani::any();
+        kani::assume(i < LEN);
+        let v = bit(&a, 8 * SK + OFF + i);
+        assert!(n.is_valid(i) == v && n.is_null(i) == !v && n.inner().value(i) == v);
+        assert!(bit(n.validity(), OFF + i) == v);
+        kani::cover!(v);
+        kani::cover!(!v);
+    }
+    kani::cover!(n.null_count() == 0);
+    kani::cover!(n.null_count() == LEN);
+}
+// Contract (C19/C01) NullBuffer::new(b) / NullBuffer::from(b): same length and offset as b, is_valid(i) =
+// value i of b, is_null(i) its negation, and null_count() == len - (number of true values) exactly
+// (naive popcount of the model); bits outside the addressed range are symbolic and not counted.
+// @unit name=nb_new_0_0_1_0 props=C19,C01 kind=bounded bound=grid_(offset,len,bytes,ptr_skew)=(0,0,1,0) fns=NullBuffer::new,NullBuffer::null_count,NullBuffer::is_valid,NullBuffer::is_null,NullBuffer::len,NullBuffer::validity,NullBuffer::inner tier=thorough timeout=300 note=not_confirmed_under_load
+inst!(nb_new_0_0_1_0, 10, new_grid::<0, 0, 1, 0, false>());
+// @unit name=nb_new_3_12_2_0 props=C19,C01 kind=bounded bound=grid_(offset,len,bytes,ptr_skew)=(3,12,2,0) fns=NullBuffer::new,NullBuffer::null_count,NullBuffer::is_valid,NullBuffer::is_null,NullBuffer::len,NullBuffer::validity,NullBuffer::inner tier=thorough timeout=300 note=not_confirmed_under_load
+inst!(nb_new_3_12_2_0, 15, new_grid::<3, 12, 2, 0, false>());
+// @unit name=nb_from_5_65_9_0 props=C19,C01 kind=bounded bound=grid_(offset,len,bytes,ptr_skew)=(5,65,9,0) fns=NullBuffer::from,NullBuffer::null_count,NullBuffer::is_valid,NullBuffer::is_null,NullBuffer::len,NullBuffer::validity,NullBuffer::inner tier=thorough timeout=300 note=not_confirmed_under_load
+inst!(nb_from_5_65_9_0, 68, new_grid::<5, 65, 9, 0, true>());
+// @unit name=nb_new_0_64_8_0 props=C19,C01 kind=bounded bound=grid_(offset,len,bytes,ptr_skew)=(0,64,8,0) fns=NullBuffer::new,NullBuffer::null_count,NullBuffer::is_valid,NullBuffer::is_null,NullBuffer::len,NullBuffer::validity,NullBuffer::inner tier=thorough timeout=300 note=not_confirmed_under_load
+inst!(nb_new_0_64_8_0, 67, new_grid::<0, 64, 8, 0, false>());
+// @unit name=nb_new_1_130_17_0 props=C19,C01 kind=bounded bound=grid_(offset,len,bytes,ptr_skew)=(1,130,17,0) fns=NullBuffer::new,NullBuffer::null_count,NullBuffer::is_valid,NullBuffer::is_null,NullBuffer::len,NullBuffer::validity,NullBuffer::inner tier=thorough timeout=300 note=not_confirmed_under_load
+inst!(nb_new_1_130_17_0, 133, new_grid::<1, 130, 17, 0, false>());
+// @unit name=nb_from_13_140_22_2 props=C19,C01 kind=bounded bound=grid_(offset,len,bytes,ptr_skew)=(13,140,22,2) fns=NullBuffer::from,NullBuffer::null_count,NullBuffer::is_valid,NullBuffer::is_null,NullBuffer::len,NullBuffer::validity,NullBuffer::inner tier=thorough timeout=300 note=not_confirmed_under_load
+inst!(nb_from_13_140_22_2, 143, new_grid::<13, 140, 22, 2, true>());
+// @unit name=nb_new_130_200_42_0 props=C19,C01 kind=bounded bound=grid_(offset,len,bytes,ptr_skew)=(130,200,42,0) fns=NullBuffer::new,NullBuffer::null_count,NullBuffer::is_valid,NullBuffer::is_null,NullBuffer::len,NullBuffer::validity,NullBuffer::inner tier=thorough timeout=300 note=not_confirmed_under_load
+inst!(nb_new_130_200_42_0, 203, new_grid::<130, 200, 42, 0, false>());
+// @unit name=nb_from_63_129_24_0 props=C19,C01 kind=bounded bound=grid_(offset,len,bytes,ptr_skew)=(63,129,24,0) fns=NullBuffer::from,NullBuffer::null_count,NullBuffer::is_valid,NullBuffer::is_null,NullBuffer::len,NullBuffer::validity,NullBuffer::inner tier=thorough timeout=300 note=not_confirmed_under_load
+inst!(nb_from_63_129_24_0, 132, new_grid::<63, 129, 24, 0, true>());
+// @unit name=nb_new_7_1_1_0 props=C19,C01 kind=bounded bound=grid_(offset,len,bytes,ptr_skew)=(7,1,1,0) fns=NullBuffer::new,NullBuffer::null_count,NullBuffer::is_valid,NullBuffer::is_null,NullBuffer::len,NullBuffer::validity,NullBuffer::inner tier=thorough timeout=300 note=not_confirmed_under_load
+inst!(nb_new_7_1_1_0, 10, new_grid::<7, 1, 1, 0, false>());
+
+fn const_grid<const VALID: bool, const LEN: usize>() {
+    let n = if VALID { NullBuffer::new_valid(LEN) } else { NullBuffer::new_null(LEN) };
+    assert!(n.len() == LEN);
+    assert!(n.null_count() == if VALID { 0 } else { LEN });
+    assert!(n.offset() + LEN <= 8 * n.validity().len());
+    if LEN > 0 {
+        let i: usize = kani::any();
+        kani::assume(i < LEN);
+        assert!(n.is_valid(i) == VALID && n.is_null(i) == !VALID);
+    }
+    kani::cover!(n.len() == LEN);
+}
+// Contract (C19/C01) NullBuffer::new_valid(n) / new_null(n): length n, every slot valid / null,
+// null_count 0 / n, bit range inside the byte buffer.
+// @unit name=nb_new_valid_0 props=C19,C01 kind=bounded bound=grid_len=0 fns=NullBuffer::new_valid tier=thorough timeout=120 note=not_confirmed_under_load
+inst!(nb_new_valid_0, 8, const_grid::<true, 0>());
+// @unit name=nb_new_null_0 props=C19,C01 kind=bounded bound=grid_len=0 fns=NullBuffer::new_null tier=thorough timeout=120 note=not_confirmed_under_load
+inst!(nb_new_null_0, 8, const_grid::<false, 0>());
+// @unit name=nb_new_valid_1 props=C19,C01 kind=bounded bound=grid_len=1 fns=NullBuffer::new_valid tier=thorough timeout=120 note=not_confirmed_under_load
+inst!(nb_new_valid_1, 8, const_grid::<true, 1>());
+// @unit name=nb_new_null_1 props=C19,C01 kind=bounded bound=grid_len=1 fns=NullBuffer::new_null tier=thorough timeout=120 note=not_confirmed_under_load
+inst!(nb_new_null_1, 8, const_grid::<false, 1>());
+// @unit name=nb_new_valid_9 props=C19,C01 kind=bounded bound=grid_len=9 fns=NullBuffer::new_valid tier=thorough timeout=120 note=not_confirmed_under_load
+inst!(nb_new_valid_9, 8, const_grid::<true, 9>());
+// @unit name=nb_new_null_9 props=C19,C01 kind=bounded bound=grid_len=9 fns=NullBuffer::new_null tier=thorough timeout=120 note=not_confirmed_under_load
+inst!(nb_new_null_9, 8, const_grid::<false, 9>());
+// @unit name=nb_new_valid_64 props=C19,C01 kind=bounded bound=grid_len=64 fns=NullBuffer::new_valid tier=thorough timeout=120 note=not_confirmed_under_load
+inst!(nb_new_valid_64, 8, const_grid::<true, 64>());
+// @unit name=nb_new_null_64 props=C19,C01 kind=bounded bound=grid_len=64 fns=NullBuffer::new_null tier=thorough timeout=120 note=not_confirmed_under_load
+inst!(nb_new_null_64, 8, const_grid::<false, 64>());
+// @unit name=nb_new_valid_65 props=C19,C01 kind=bounded bound=grid_len=65 fns=NullBuffer::new_valid tier=thorough timeout=120 note=not_confirmed_under_load
+inst!(nb_new_valid_65, 8, const_grid::<true, 65>());
+// @unit name=nb_new_null_65 props=C19,C01 kind=bounded bound=grid_len=65 fns=NullBuffer::new_null tier=thorough timeout=120 note=not_confirmed_under_load
+inst!(nb_new_null_65, 8, const_grid::<false, 65>());
+// @unit name=nb_new_valid_130 props=C19,C01 kind=bounded bound=grid_len=130 fns=NullBuffer::new_valid tier=thorough timeout=120 note=not_confirmed_under_load
+inst!(nb_new_valid_130, 8, const_grid::<true, 130>());
+// @unit name=nb_new_null_130 props=C19,C01 kind=bounded bound=grid_len=130 fns=NullBuffer::new_null tier=thorough timeout=120 note=not_confirmed_under_load
+inst!(nb_new_null_130, 8, const_grid::<false, 130>());
+
+fn union_grid<const LP: bool, const RP: bool, const OL: usize, const OR: usize, const LEN: usize, const NL: usize, const NR: usize>() {
+    let a: [u8; NL] = any_bytes();
+    let b: [u8; NR] = any_bytes();
+    skews().ubc(0, OL, LEN).ubc(0, OR, LEN).install();
+    let l = NullBuffer::new(BooleanBuffer::new(mk(&a, 0), OL, LEN));
+    let r = NullBuffer::new(BooleanBuffer::new(mk(&b, 0), OR, LEN));
+    // from_bitwise_binary_op (2 align_to calls when ol%64 == or%64) then count_set_bits of the result
+    set_skews([0; 6]);
+    let u = NullBuffer::union(if LP { Some(&l) } else { None }, if RP { Some(&r) } else { None });
+    // model: a slot is valid iff it is valid in every present operand
+    let m = |i: usize| (!LP || bit(&a, OL + i)) && (!RP || bit(&b, OR + i));
+    let mut valid = 0usize;
+    let mut k = 0;
+    while k < LEN {
+        if m(k) { valid += 1; }
+        k += 1;
+    }
+    match &u {
+        None => assert!(valid == LEN),
+        Some(n) => {
+            assert!(valid < LEN);
+            assert!(n.len() == LEN && n.null_count() == LEN - valid);
+            assert!(n.offset() + LEN <= 8 * n.validity().len());
+            let i: usize = kani::any();
+            kani::assume(i < LEN);
+            assert!(n.is_valid(i) == m(i));
+            kani::cover!(n.is_valid(i));
+            kani::cover!(!n.is_valid(i) && (!LP || bit(&a, OL + i)));
+        }
+    }
+    kani::cover!(u.is_none());
+    kani::cover!(u.is_some());
+}
+// Contract (C19) NullBuffer::union(lhs, rhs) on optional buffers of equal length (absent = all valid):
+// with m(i) = valid in every present operand: the result is None exactly when every m(i) holds;
+// otherwise Some(n) with n.len() = len, n.is_valid(i) = m(i) for all i, and n.null_count() = number of
+// i with !m(i), exactly. LP/RP = operand present.
+// @unit name=nb_union_ss_3_5_12 props=C19 kind=bounded bound=grid_(lhs_present,rhs_present,ol,or,len)=(true,true,3,5,12) fns=NullBuffer::union tier=thorough timeout=400 note=not_confirmed_under_load
+inst!(nb_union_ss_3_5_12, 15, union_grid::<true, true, 3, 5, 12, 2, 3>());
+// @unit name=nb_union_ss_3_3_70 props=C19 kind=bounded bound=grid_(lhs_present,rhs_present,ol,or,len)=(true,true,3,3,70) fns=NullBuffer::union tier=thorough timeout=400 note=not_confirmed_under_load
+inst!(nb_union_ss_3_3_70, 73, union_grid::<true, true, 3, 3, 70, 10, 10>());
+// @unit name=nb_union_sn_3_0_12 props=C19 kind=bounded bound=grid_(lhs_present,rhs_present,ol,or,len)=(true,false,3,0,12) fns=NullBuffer::union tier=thorough timeout=400 note=not_confirmed_under_load
+inst!(nb_union_sn_3_0_12, 15, union_grid::<true, false, 3, 0, 12, 2, 2>());
+// @unit name=nb_union_ns_0_5_65 props=C19 kind=bounded bound=grid_(lhs_present,rhs_present,ol,or,len)=(false,true,0,5,65) fns=NullBuffer::union tier=thorough timeout=400 note=not_confirmed_under_load
+inst!(nb_union_ns_0_5_65, 68, union_grid::<false, true, 0, 5, 65, 9, 9>());
+// @unit name=nb_union_nn_0_0_9 props=C19 kind=bounded bound=grid_(lhs_present,rhs_present,ol,or,len)=(false,false,0,0,9) fns=NullBuffer::union tier=thorough timeout=400 note=not_confirmed_under_load
+inst!(nb_union_nn_0_0_9, 12, union_grid::<false, false, 0, 0, 9, 2, 2>());
+// @unit name=nb_union_ss_0_9_65 props=C19 kind=bounded bound=grid_(lhs_present,rhs_present,ol,or,len)=(true,true,0,9,65) fns=NullBuffer::union tier=thorough timeout=400 note=not_confirmed_under_load
+inst!(nb_union_ss_0_9_65, 68, union_grid::<true, true, 0, 9, 65, 9, 10>());
+// @unit name=nb_union_ss_0_64_128 props=C19 kind=bounded bound=grid_(lhs_present,rhs_present,ol,or,len)=(true,true,0,64,128) fns=NullBuffer::union tier=thorough timeout=400 note=not_confirmed_under_load
+inst!(nb_union_ss_0_64_128, 131, union_grid::<true, true, 0, 64, 128, 16, 24>());
+// @unit name=nb_union_ss_130_1_130 props=C19 kind=bounded bound=grid_(lhs_present,rhs_present,ol,or,len)=(true,true,130,1,130) fns=NullBuffer::union tier=thorough timeout=400 note=not_confirmed_under_load
+inst!(nb_union_ss_130_1_130, 133, union_grid::<true, true, 130, 1, 130, 33, 17>());
+
+fn union_many_grid<const P0: bool, const P1: bool, const P2: bool, const O0: usize, const O1: usize, const O2: usize, const LEN: usize, const N: usize>() {
+    let a: [u8; N] = any_bytes();
+    let b: [u8; N] = any_bytes();
+    let c: [u8; N] = any_bytes();
+    skews().ubc(0, O0, LEN).ubc(0, O1, LEN).ubc(0, O2, LEN).install();
+    let n0 = NullBuffer::new(BooleanBuffer::new(mk(&a, 0), O0, LEN));
+    let n1 = NullBuffer::new(BooleanBuffer::new(mk(&b, 0), O1, LEN));
+    let n2 = NullBuffer::new(BooleanBuffer::new(mk(&c, 0), O2, LEN));
+    set_skews([0; 6]);
+    let u = NullBuffer::union_many([if P0 { Some(&n0) } else { None }, if P1 { Some(&n1) } else { None }, if P2 { Some(&n2) } else { None }]);
+    let m = |i: usize| (!P0 || bit(&a, O0 + i)) && (!P1 || bit(&b, O1 + i)) && (!P2 || bit(&c, O2 + i));
+    let mut valid = 0usize;
+    let mut k = 0;
+    while k < LEN {
+        if m(k) { valid += 1; }
+        k += 1;
+    }
+    match &u {
+        None => assert!(valid == LEN),
+        Some(n) => {
+            assert!(valid < LEN);
+            assert!(n.len() == LEN && n.null_count() == LEN - valid);
+            let i: usize = kani::any();
+            kani::assume(i < LEN);
+            assert!(n.is_valid(i) == m(i));
+            kani::cover!(n.is_valid(i));
+            kani::cover!(!n.is_valid(i));
+        }
+    }
+    // inputs unchanged (the in-place `&=` must never write into a shared operand)
+    let j: usize = kani::any();
+    kani::assume(j < LEN);
+    assert!(n0.is_valid(j) == bit(&a, O0 + j) && n1.is_valid(j) == bit(&b, O1 + j) && n2.is_valid(j) == bit(&c, O2 + j));
+    kani::cover!(u.is_none());
+    kani::cover!(u.is_some());
+}
+// Contract (C19) NullBuffer::union_many of up to three optional buffers of equal length: same statement
+// as `union` with m(i) = valid in every present operand (None exactly when there is no null at all,
+// otherwise exact validity and exact null count), and every operand still reads its old values
+// afterwards (the second `&=` runs in place on the accumulator, never on an operand).
+// @unit name=nb_union_many_sss_3_5_0_12 props=C19 kind=bounded bound=grid_(present,o0,o1,o2,len)=(111,3,5,0,12) fns=NullBuffer::union_many tier=thorough timeout=600 note=not_confirmed_under_load
+inst!(nb_union_many_sss_3_5_0_12, 15, union_many_grid::<true, true, true, 3, 5, 0, 12, 3>());
+// @unit name=nb_union_many_sns_0_0_7_20 props=C19 kind=bounded bound=grid_(present,o0,o1,o2,len)=(101,0,0,7,20) fns=NullBuffer::union_many tier=thorough timeout=600 note=not_confirmed_under_load
+inst!(nb_union_many_sns_0_0_7_20, 23, union_many_grid::<true, false, true, 0, 0, 7, 20, 4>());
+// @unit name=nb_union_many_nnn_0_0_0_9 props=C19 kind=bounded bound=grid_(present,o0,o1,o2,len)=(000,0,0,0,9) fns=NullBuffer::union_many tier=thorough timeout=600 note=not_confirmed_under_load
+inst!(nb_union_many_nnn_0_0_0_9, 12, union_many_grid::<false, false, false, 0, 0, 0, 9, 2>());
+// @unit name=nb_union_many_sss_1_65_2_66 props=C19 kind=bounded bound=grid_(present,o0,o1,o2,len)=(111,1,65,2,66) fns=NullBuffer::union_many tier=thorough timeout=600 note=not_confirmed_under_load
+inst!(nb_union_many_sss_1_65_2_66, 69, union_many_grid::<true, true, true, 1, 65, 2, 66, 17>());
+
+fn contains_grid<const OL: usize, const OR: usize, const LEN: usize, const NL: usize, const NR: usize>() {
+    let a: [u8; NL] = any_bytes();
+    let b: [u8; NR] = any_bytes();
+    skews().ubc(0, OL, LEN).ubc(0, OR, LEN).install();
+    let l = NullBuffer::new(BooleanBuffer::new(mk(&a, 0), OL, LEN));
+    let r = NullBuffer::new(BooleanBuffer::new(mk(&b, 0), OR, LEN));
+    let got = l.contains(&r);
+    // spec: every null of r is also a null of l
+    let mut all = true;
+    let mut k = 0;
+    while k < LEN {
+        if !bit(&b, OR + k) && bit(&a, OL + k) { all = false; }
+        k += 1;
+    }
+    assert!(got == all);
+    kani::cover!(got && r.null_count() > 0);
+    kani::cover!(!got);
+    kani::cover!(got && r.null_count() == 0);
+}
+// Contract (C19) NullBuffer::contains(&self, other) ("true if all nulls in other also exist in self"),
+// equal lengths: true exactly when for every i, other.is_null(i) implies self.is_null(i).
+// @unit name=nb_contains_3_5_12 props=C19 kind=bounded bound=grid_(ol,or,len)=(3,5,12) fns=NullBuffer::contains tier=thorough timeout=300 note=not_confirmed_under_load
+inst!(nb_contains_3_5_12, 15, contains_grid::<3, 5, 12, 2, 3>());
+// @unit name=nb_contains_0_9_65 props=C19 kind=bounded bound=grid_(ol,or,len)=(0,9,65) fns=NullBuffer::contains tier=thorough timeout=300 note=not_confirmed_under_load
+inst!(nb_contains_0_9_65, 68, contains_grid::<0, 9, 65, 9, 10>());
+// @unit name=nb_contains_0_0_64 props=C19 kind=bounded bound=grid_(ol,or,len)=(0,0,64) fns=NullBuffer::contains tier=thorough timeout=300 note=not_confirmed_under_load
+inst!(nb_contains_0_0_64, 67, contains_grid::<0, 0, 64, 8, 8>());
+// @unit name=nb_contains_63_1_130 props=C19 kind=bounded bound=grid_(ol,or,len)=(63,1,130) fns=NullBuffer::contains tier=thorough timeout=300 note=not_confirmed_under_load
+inst!(nb_contains_63_1_130, 133, contains_grid::<63, 1, 130, 25, 17>());
+// @unit name=nb_contains_0_0_0 props=C19 kind=bounded bound=grid_(ol,or,len)=(0,0,0) fns=NullBuffer::contains tier=thorough timeout=300 note=not_confirmed_under_load
+inst!(nb_contains_0_0_0, 12, contains_grid::<0, 0, 0, 1, 1>());
+
+fn expand_grid<const OFF: usize, const LEN: usize, const COUNT: usize, const N: usize>() {
+    let a: [u8; N] = any_bytes();
+    set_skews([(OFF / 8) % 8; 6]);
+    let n = NullBuffer::new(BooleanBuffer::new(mk(&a, 0), OFF, LEN));
+    let e = n.expand(COUNT);
+    assert!(e.len() == LEN * COUNT);
+    assert!(e.null_count() == (LEN - popcount(&a, OFF, LEN)) * COUNT);
+    assert!(e.offset() + e.len() <= 8 * e.validity().len());
+    if LEN * COUNT > 0 {
+        let i: usize = kani::any();
+        kani::assume(i < LEN * COUNT);
+        assert!(e.is_valid(i) == bit(&a, OFF + i / COUNT));
+        kani::cover!(e.is_valid(i) && i % COUNT == COUNT - 1);
+        kani::cover!(!e.is_valid(i));
+    }
+    kani::cover!(e.len() == LEN * COUNT);
+}
+// Contract (C19/C01) NullBuffer::expand(count): length len*count, slot i of the result is valid exactly
+// when slot i / count of self is valid, null_count is the exact number of null slots of the result.
+// @unit name=nb_expand_3_5_3 props=C19,C01 kind=bounded bound=grid_(offset,len,count)=(3,5,3) fns=NullBuffer::expand tier=thorough timeout=400 note=not_confirmed_under_load
+inst!(nb_expand_3_5_3, 18, expand_grid::<3, 5, 3, 1>());
+// @unit name=nb_expand_0_9_1 props=C19,C01 kind=bounded bound=grid_(offset,len,count)=(0,9,1) fns=NullBuffer::expand tier=thorough timeout=400 note=not_confirmed_under_load
+inst!(nb_expand_0_9_1, 12, expand_grid::<0, 9, 1, 2>());
+// @unit name=nb_expand_5_4_0 props=C19,C01 kind=bounded bound=grid_(offset,len,count)=(5,4,0) fns=NullBuffer::expand tier=thorough timeout=400 note=not_confirmed_under_load
+inst!(nb_expand_5_4_0, 12, expand_grid::<5, 4, 0, 2>());
+// @unit name=nb_expand_61_6_2 props=C19,C01 kind=bounded bound=grid_(offset,len,count)=(61,6,2) fns=NullBuffer::expand tier=thorough timeout=400 note=not_confirmed_under_load
+inst!(nb_expand_61_6_2, 15, expand_grid::<61, 6, 2, 9>());
+// @unit name=nb_expand_0_0_3 props=C19,C01 kind=bounded bound=grid_(offset,len,count)=(0,0,3) fns=NullBuffer::expand tier=thorough timeout=400 note=not_confirmed_under_load
+inst!(nb_expand_0_0_3, 12, expand_grid::<0, 0, 3, 1>());
+// @unit name=nb_expand_2_22_3 props=C19,C01 kind=bounded bound=grid_(offset,len,count)=(2,22,3) fns=NullBuffer::expand tier=thorough timeout=400 note=not_confirmed_under_load
+inst!(nb_expand_2_22_3, 69, expand_grid::<2, 22, 3, 3>());
+
+fn slice_grid<const OFF: usize, const LEN: usize, const O: usize, const L: usize, const N: usize>() {
+    let a: [u8; N] = any_bytes();
+    skews().ubc(0, OFF, LEN).ubc(0, OFF + O, L).install();
+    let n = NullBuffer::new(BooleanBuffer::new(mk(&a, 0), OFF, LEN));
+    let s = n.slice(O, L);
+    assert!(s.len() == L);
+    assert!(s.null_count() == L - popcount(&a, OFF + O, L));
+    if L > 0 {
+        let i: usize = kani::any();
+        kani::assume(i < L);
+        assert!(s.is_valid(i) == bit(&a, OFF + O + i) && s.is_valid(i) == n.is_valid(O + i));
+        kani::cover!(s.is_valid(i));
+        kani::cover!(s.is_null(i));
+    }
+    kani::cover!(s.null_count() == 0 && n.null_count() > 0);
+}
+// Contract (C19/C01) NullBuffer::slice(o, l): length l, slot i = slot o+i of self, and the null count is
+// recomputed exactly for the sub-range (nulls outside [o, o+l) are not counted).
+// @unit name=nb_slice_3_20_5_9 props=C19,C01 kind=bounded bound=grid_(offset,len,slice_offset,slice_len)=(3,20,5,9) fns=NullBuffer::slice tier=thorough timeout=300 note=not_confirmed_under_load
+inst!(nb_slice_3_20_5_9, 23, slice_grid::<3, 20, 5, 9, 3>());
+// @unit name=nb_slice_0_130_63_66 props=C19,C01 kind=bounded bound=grid_(offset,len,slice_offset,slice_len)=(0,130,63,66) fns=NullBuffer::slice tier=thorough timeout=300 note=not_confirmed_under_load
+inst!(nb_slice_0_130_63_66, 133, slice_grid::<0, 130, 63, 66, 17>());
+// @unit name=nb_slice_5_70_70_0 props=C19,C01 kind=bounded bound=grid_(offset,len,slice_offset,slice_len)=(5,70,70,0) fns=NullBuffer::slice tier=thorough timeout=300 note=not_confirmed_under_load
+inst!(nb_slice_5_70_70_0, 73, slice_grid::<5, 70, 70, 0, 10>());
+// @unit name=nb_slice_1_64_0_64 props=C19,C01 kind=bounded bound=grid_(offset,len,slice_offset,slice_len)=(1,64,0,64) fns=NullBuffer::slice tier=thorough timeout=300 note=not_confirmed_under_load
+inst!(nb_slice_1_64_0_64, 67, slice_grid::<1, 64, 0, 64, 9>());
+// @unit name=nb_slice_130_200_1_130 props=C19,C01 kind=bounded bound=grid_(offset,len,slice_offset,slice_len)=(130,200,1,130) fns=NullBuffer::slice tier=thorough timeout=300 note=not_confirmed_under_load
+inst!(nb_slice_130_200_1_130, 203, slice_grid::<130, 200, 1, 130, 42>());
+
+fn iter_grid<const OFF: usize, const LEN: usize, const N: usize>() {
+    let a: [u8; N] = any_bytes();
+    set_skews([(OFF / 8) % 8; 6]);
+    let n = NullBuffer::new(BooleanBuffer::new(mk(&a, 0), OFF, LEN));
+    let mut it = n.iter();
+    let mut i = 0;
+    while i < LEN {
+        assert!(it.next() == Some(bit(&a, OFF + i)));
+        i += 1;
+    }
+    assert!(it.next().is_none());
+    let mut next_expected = 0usize;
+    let mut vi = n.valid_indices();
+    let mut k = 0;
+    while k <= LEN {
+        match vi.next() {
+            Some(idx) => {
+                assert!(idx >= next_expected && idx < LEN && bit(&a, OFF + idx));
+                let mut j = next_expected;
+                while j < idx { assert!(!bit(&a, OFF + j)); j += 1; }
+                next_expected = idx + 1;
+            }
+            None => {
+                let mut j = next_expected;
+                while j < LEN { assert!(!bit(&a, OFF + j)); j += 1; }
+                next_expected = LEN + 1;
+                break;
+            }
+        }
+        k += 1;
+    }
+    assert!(next_expected == LEN + 1);
+    kani::cover!(n.null_count() == 0);
+    kani::cover!(n.null_count() == LEN);
+}
+// Contract (C19) NullBuffer::iter yields exactly len items, the i-th being is_valid(i); valid_indices
+// yields exactly the positions of the valid slots in increasing order.
+// @unit name=nb_iter_5_6 props=C19 kind=bounded bound=grid_(offset,len)=(5,6) fns=NullBuffer::iter,NullBuffer::valid_indices tier=thorough timeout=600 note=not_confirmed_under_load
+inst!(nb_iter_5_6, 12, iter_grid::<5, 6, 3>());
+// @unit name=nb_iter_61_6 props=C19 kind=bounded bound=grid_(offset,len)=(61,6) fns=NullBuffer::iter,NullBuffer::valid_indices tier=thorough timeout=600 note=not_confirmed_under_load
+inst!(nb_iter_61_6, 12, iter_grid::<61, 6, 10>());
+// @unit name=nb_iter_0_0 props=C19 kind=bounded bound=grid_(offset,len)=(0,0) fns=NullBuffer::iter,NullBuffer::valid_indices tier=thorough timeout=600 note=not_confirmed_under_load
+inst!(nb_iter_0_0, 12, iter_grid::<0, 0, 2>());
+
+fn valid_slices_grid<const OFF: usize, const LEN: usize, const N: usize>() {
+    let a: [u8; N] = any_bytes();
+    set_skews([(OFF / 8) % 8; 6]);
+    let n = NullBuffer::new(BooleanBuffer::new(mk(&a, 0), OFF, LEN));
+    let mut pos = 0usize;
+    let mut ss = n.valid_slices();
+    let mut k = 0;
+    let mut finished = false;
+    while k <= LEN {
+        match ss.next() {
+            Some((s, e)) => {
+                assert!(s >= pos && s < e && e <= LEN);
+                assert!(k == 0 || s > pos);
+                let mut j = pos;
+                while j < s { assert!(!bit(&a, OFF + j)); j += 1; }
+                while j < e { assert!(bit(&a, OFF + j)); j += 1; }
+                pos = e;
+            }
+            None => {
+                let mut j = pos;
+                while j < LEN { assert!(!bit(&a, OFF + j)); j += 1; }
+                finished = true;
+                break;
+            }
+        }
+        k += 1;
+    }
+    assert!(finished);
+    kani::cover!(n.null_count() == 0);
+    kani::cover!(n.null_count() == LEN);
+    kani::cover!(LEN < 3 || (n.is_valid(0) && n.is_null(1) && n.is_valid(2)));
+}
+// Contract (C19) NullBuffer::valid_slices yields, in order, the maximal runs [start, end) of valid slots.
+// @unit name=nb_valid_slices_5_6 props=C19 kind=bounded bound=grid_(offset,len)=(5,6) fns=NullBuffer::valid_slices tier=thorough timeout=900 note=not_confirmed_under_load
+inst!(nb_valid_slices_5_6, 12, valid_slices_grid::<5, 6, 3>());
+// @unit name=nb_valid_slices_61_5 props=C19 kind=bounded bound=grid_(offset,len)=(61,5) fns=NullBuffer::valid_slices tier=thorough timeout=900 note=not_confirmed_under_load
+inst!(nb_valid_slices_61_5, 12, valid_slices_grid::<61, 5, 10>());
+
+fn try_for_each_grid<const OFF: usize, const LEN: usize, const N: usize>() {
+    let a: [u8; N] = any_bytes();
+    set_skews([(OFF / 8) % 8; 6]);
+    let n = NullBuffer::new(BooleanBuffer::new(mk(&a, 0), OFF, LEN));
+    let valid = popcount(&a, OFF, LEN);
+    let fail_at: usize = kani::any(); // the fail_at-th call (1-based) returns Err; 0 = never
+    let mut calls = 0usize;
+    let mut next_expected = 0usize;
+    let r = n.try_for_each_valid_idx(|idx| {
+        // called on valid slots only, in increasing order, skipping none
+        assert!(idx >= next_expected && idx < LEN && bit(&a, OFF + idx));
+        let mut j = next_expected;
+        while j < idx { assert!(!bit(&a, OFF + j)); j += 1; }
+        next_expected = idx + 1;
+        calls += 1;
+        if calls == fail_at { Err(idx) } else { Ok(()) }
+    });
+    if fail_at >= 1 && fail_at <= valid {
+        assert!(r.is_err() && calls == fail_at); // stops at the first error and reports it
+        assert!(r == Err(next_expected - 1));
+    } else {
+        assert!(r.is_ok() && calls == valid); // every valid slot visited exactly once
+    }
+    kani::cover!(r.is_err() && calls > 1);
+    kani::cover!(r.is_ok() && calls == 0 && LEN > 0);
+    kani::cover!(r.is_ok() && calls == LEN);
+}
+// Contract (C19) NullBuffer::try_for_each_valid_idx(f): f is called exactly on the valid slots, in
+// increasing order, none skipped; if the k-th call returns Err(e) the iteration stops there and
+// Err(e) is returned after exactly k calls; otherwise Ok(()) after exactly (number of valid slots) calls.
+// @unit name=nb_try_for_each_valid_idx_5_5 props=C19 kind=bounded bound=grid_(offset,len)=(5,5)_failing_call_symbolic fns=NullBuffer::try_for_each_valid_idx tier=thorough timeout=900 note=not_confirmed_under_load
+inst!(nb_try_for_each_valid_idx_5_5, 12, try_for_each_grid::<5, 5, 3>());
+// @unit name=nb_try_for_each_valid_idx_62_4 props=C19 kind=bounded bound=grid_(offset,len)=(62,4)_failing_call_symbolic fns=NullBuffer::try_for_each_valid_idx tier=thorough timeout=900 note=not_confirmed_under_load
+inst!(nb_try_for_each_valid_idx_62_4, 12, try_for_each_grid::<62, 4, 10>());
+
+fn unsliced_grid<const LEN: usize, const N: usize>() {
+    let a: [u8; N] = any_bytes();
+    set_skews([0; 6]);
+    let r = NullBuffer::from_unsliced_buffer(Buffer::from_slice_ref(&a), LEN);
+    let valid = popcount(&a, 0, LEN);
+    match &r {
+        None => assert!(valid == LEN),
+        Some(n) => {
+            assert!(valid < LEN && n.len() == LEN && n.offset() == 0 && n.null_count() == LEN - valid);
+            let i: usize = kani::any();
+            kani::assume(i < LEN);
+            assert!(n.is_valid(i) == bit(&a, i));
+            assert!(n.validity().len() == N && bit(n.validity(), i) == bit(&a, i) && n.buffer().len() == N);
+        }
+    }
+    kani::cover!(r.is_none());
+    kani::cover!(r.is_some());
+}
+// Contract (C19/C01) NullBuffer::from_unsliced_buffer(buf, len): None exactly when the first len bits are
+// all set; otherwise Some(n) with offset 0, length len, validity == those bits, exact null count
+// (bits >= len of the buffer are symbolic and not counted); validity()/buffer() expose the bytes.
+// @unit name=nb_from_unsliced_buffer_12_2 props=C19,C01 kind=bounded bound=grid_(len,bytes)=(12,2) fns=NullBuffer::from_unsliced_buffer,NullBuffer::validity,NullBuffer::buffer tier=thorough timeout=300 note=not_confirmed_under_load
+inst!(nb_from_unsliced_buffer_12_2, 15, unsliced_grid::<12, 2>());
+// @unit name=nb_from_unsliced_buffer_65_9 props=C19,C01 kind=bounded bound=grid_(len,bytes)=(65,9) fns=NullBuffer::from_unsliced_buffer,NullBuffer::validity,NullBuffer::buffer tier=thorough timeout=300 note=not_confirmed_under_load
+inst!(nb_from_unsliced_buffer_65_9, 68, unsliced_grid::<65, 9>());
+// @unit name=nb_from_unsliced_buffer_0_1 props=C19,C01 kind=bounded bound=grid_(len,bytes)=(0,1) fns=NullBuffer::from_unsliced_buffer,NullBuffer::validity,NullBuffer::buffer tier=thorough timeout=300 note=not_confirmed_under_load
+inst!(nb_from_unsliced_buffer_0_1, 12, unsliced_grid::<0, 1>());
+// @unit name=nb_from_unsliced_buffer_130_17 props=C19,C01 kind=bounded bound=grid_(len,bytes)=(130,17) fns=NullBuffer::from_unsliced_buffer,NullBuffer::validity,NullBuffer::buffer tier=thorough timeout=300 note=not_confirmed_under_load
+inst!(nb_from_unsliced_buffer_130_17, 133, unsliced_grid::<130, 17>());
+
+fn nb_from_bools_grid<const LEN: usize, const VARIANT: u8>() {
+    let m: [bool; LEN] = kani::any();
+    set_skews([0; 6]);
+    let n: NullBuffer = match VARIANT {
+        0 => NullBuffer::from(&m[..]),
+        1 => NullBuffer::from(&m),
+        2 => NullBuffer::from(m.to_vec()),
+        _ => m.iter().copied().collect(),
+    };
+    let mut nulls = 0usize;
+    let mut k = 0;
+    while k < LEN { if !m[k] { nulls += 1; } k += 1; }
+    assert!(n.len() == LEN && n.null_count() == nulls);
+    if LEN > 0 {
+        let i: usize = kani::any();
+        kani::assume(i < LEN);
+        assert!(n.is_valid(i) == m[i]);
+    }
+    kani::cover!(nulls == 0);
+    kani::cover!(nulls == LEN);
+}
+// Contract (C19/C01) NullBuffer::from(&[bool]) / from(&[bool; N]) / from(Vec<bool>) / FromIterator<bool>
+// (VARIANT 0/1/2/3): length = number of items, slot i valid exactly when item i is true, exact null count.
+// @unit name=nb_from_bools_9_3 props=C19,C01 kind=bounded bound=grid_(len,variant)=(9,3) fns=NullBuffer::from,NullBuffer::from_iter tier=thorough timeout=300 note=not_confirmed_under_load
+inst!(nb_from_bools_9_3, 12, nb_from_bools_grid::<9, 3>());
+// @unit name=nb_from_bools_9_0 props=C19,C01 kind=bounded bound=grid_(len,variant)=(9,0) fns=NullBuffer::from,NullBuffer::from_iter tier=thorough timeout=300 note=not_confirmed_under_load
+inst!(nb_from_bools_9_0, 12, nb_from_bools_grid::<9, 0>());
+// @unit name=nb_from_bools_9_1 props=C19,C01 kind=bounded bound=grid_(len,variant)=(9,1) fns=NullBuffer::from,NullBuffer::from_iter tier=thorough timeout=300 note=not_confirmed_under_load
+inst!(nb_from_bools_9_1, 12, nb_from_bools_grid::<9, 1>());
+// @unit name=nb_from_bools_9_2 props=C19,C01 kind=bounded bound=grid_(len,variant)=(9,2) fns=NullBuffer::from,NullBuffer::from_iter tier=thorough timeout=300 note=not_confirmed_under_load
+inst!(nb_from_bools_9_2, 12, nb_from_bools_grid::<9, 2>());
+// @unit name=nb_from_bools_65_3 props=C19,C01 kind=bounded bound=grid_(len,variant)=(65,3) fns=NullBuffer::from,NullBuffer::from_iter tier=thorough timeout=300 note=not_confirmed_under_load
+inst!(nb_from_bools_65_3, 68, nb_from_bools_grid::<65, 3>());
+// @unit name=nb_from_bools_0_0 props=C19,C01 kind=bounded bound=grid_(len,variant)=(0,0) fns=NullBuffer::from,NullBuffer::from_iter tier=thorough timeout=300 note=not_confirmed_under_load
+inst!(nb_from_bools_0_0, 12, nb_from_bools_grid::<0, 0>());
